@@ -36,6 +36,7 @@ static long ICB = 0, ECB = 0;
 static void vh_illegal_cb(const char *msg, void *data) { (void)msg; (void)data; ICB++; }
 static void vh_error_cb(const char *msg, void *data) { (void)msg; (void)data; ECB++; }
 
+static void vh_custom_sha_fn(uint32_t *state, const unsigned char *blocks64, size_t n_blocks) { secp256k1_sha256_transform(state, blocks64, n_blocks); }
 typedef void (*vh_op_fn)(const jv *in, jout *out);
 typedef struct { const char *name; vh_op_fn fn; } vh_op;
 
@@ -205,6 +206,8 @@ int main(int argc, char **argv) {
     CTX = secp256k1_context_create(SECP256K1_CONTEXT_NONE);
     secp256k1_context_set_illegal_callback(CTX, vh_illegal_cb, NULL);
     secp256k1_context_set_error_callback(CTX, vh_error_cb, NULL);
+    /* VH_CUSTOM_SHA=1: the shared context gets a replaced-but-correct SHA-256 compression function (C20: results must not change) */
+    if (getenv("VH_CUSTOM_SHA") != NULL) secp256k1_context_set_sha256_compression(CTX, vh_custom_sha_fn);
     while ((n = getline(&line, &cap, stdin)) > 0) {
         jv *rec; const jv *e, *in; const vh_op *op;
         long icb0 = ICB, ecb0 = ECB;
